@@ -1,4 +1,4 @@
-import LopdfModel.Thm.FileRt
+import LopdfModel.Thm.FileRevs
 /-
   C07 — **`incr_again`: histories of ANY number of revisions.**  A document saved plainly and
   then updated incrementally any number of times (classic tables, `Prev` = the previous
@@ -7,16 +7,6 @@ import LopdfModel.Thm.FileRt
 -/
 namespace Lopdf.FileRT
 open Lopdf Gen Lopdf.ObjRt
-
-/-- a revision the history theorems cover (as in `file_rt_table`) -/
-structure RevOK (d : SDoc) : Prop where
-  kind : d.xrefKind = .table
-  hmax : d.maxId + 1 ≤ 4294967295
-  wf : DocWF d
-  objs : ∀ p ∈ d.objects, ObjOK p.2
-  tr : WFObj (.dict d.trailer) ∧ height (.dict d.trailer) ≤ MAX_NESTING ∧ NoRealD d.trailer
-  nostm : d.trailer.get XREFSTM = none
-  noenc : d.trailer.has ENCRYPT = false
 
 /-- offset of the newest cross-reference section -/
 def topX : List (SDoc × Bytes) → Nat
@@ -34,44 +24,10 @@ inductive History : List (SDoc × Bytes) → Bytes → Prop
       d.trailer.get PREV = some (.int (topX prevs : Int)) →
       History ((d, incrPre outprev) :: prevs) out
 
-/-- what the reader finds for one revision inside the (possibly longer) file `buf` -/
-structure RevFacts (buf : Bytes) (d : SDoc) (pre : Bytes) (X : XTable) : Prop where
-  get : ∀ n, X.get n = if 1 ≤ n ∧ n < d.maxId + 1 then normalOf (xmapOf pre d) n else none
-  nodup : (X.map (·.1)).Nodup
-  recd : Recorded buf (xmapOf pre d) d.objects
-
 def ChainFacts (buf : Bytes) : List (SDoc × Bytes) → List (Int × XTable × Dict) → Prop
   | [], [] => True
   | (d, pre) :: rs, (p, X, _) :: cs => p = ((bodyOf pre d).length : Int) ∧ RevFacts buf d pre X ∧ ChainFacts buf rs cs
   | _, _ => False
-
-/-- one revision's cross-reference section, read inside any extension of the file it ends -/
-theorem rev_section (d : SDoc) (pre out : Bytes) (d' : SDoc) (hok : RevOK d)
-    (h : saveFrom pre d = some (out, d')) (R : Bytes) (hlen : out.length < 4294967296) :
-    ∃ table, xrefAndTrailer ((out ++ R).drop (bodyOf pre d).length) = .ok (table, d.maxId + 1, d'.trailer) ∧
-      RevFacts (out ++ R) d pre table ∧ (bodyOf pre d).length < out.length ∧
-      d'.trailer.get PREV = d.trailer.get PREV := by
-  obtain ⟨hout, htr⟩ := saveFrom_table_eq pre d out d' hok.kind h
-  have hb := body_le_out pre d out d' h
-  have hD := setSize_readsBack d.trailer d.maxId (by have := hok.hmax; omega) hok.tr
-  rw [← htr] at hD
-  have e1 : out ++ R = bodyOf pre d ++ (writeXrefTable (xmapOf pre d) (d.maxId + 1) ++ (TRAILER_KW ++
-      (writeObj (.dict d'.trailer) ++ (STARTXREF_KW ++ natDigits (bodyOf pre d).length ++ EOF_KW ++ R)))) := by
-    rw [hout, htr]; simp only [List.append_assoc]
-  obtain ⟨table, hxt, hget, hnodup⟩ := xrefAndTrailer_table (xmapOf pre d) (d.maxId + 1) d'.trailer
-    (STARTXREF_KW ++ natDigits (bodyOf pre d).length ++ EOF_KW ++ R)
-    (xmapOf_ok pre d hok.wf.gens) hok.hmax (hD _) (by rw [htr, Dict.get_set_same]; simp)
-  have hrec0 : Recorded (bodyOf pre d) (xmapOf pre d) d.objects :=
-    writeObjects_recorded d.objects d.objects (hdrOf pre d) []
-      (by intro n off g hg; simp [XrefMap.get] at hg)
-      (fun p hp => Objects_get_of_mem d.objects hok.wf.nodup p hp)
-      (by unfold bodyOf at hb; omega)
-  have k1 : ¬ SIZE = PREV := by decide
-  refine ⟨table, ?_, ⟨hget, hnodup, ?_⟩, ?_, ?_⟩
-  · rw [e1, List.drop_left]; exact hxt
-  · rw [e1]; exact Recorded_append _ _ _ _ hrec0
-  · rw [hout]; simp only [List.length_append, writeXrefTable, XREF_KW, List.length_cons]; omega
-  · rw [htr, Dict_get_set]; simp only [k1, if_false]
 
 theorem history_ne_nil (revs : List (SDoc × Bytes)) (out : Bytes) (h : History revs out) : revs ≠ [] := by
   cases h <;> simp
@@ -80,10 +36,10 @@ theorem history_topX_lt (revs : List (SDoc × Bytes)) (out : Bytes) (h : History
     (hlen : out.length < 4294967296) : topX revs < out.length := by
   cases h with
   | base d out d' hok hs _ =>
-    obtain ⟨_, _, _, hlt, _⟩ := rev_section d [] out d' hok hs [] hlen
+    obtain ⟨_, _, _, hlt, _, _⟩ := rev_section d [] out d' hok hs [] hlen
     exact hlt
   | step d prevs outprev out d' _ hok hs _ =>
-    obtain ⟨_, _, _, hlt, _⟩ := rev_section d (incrPre outprev) out d' hok hs [] hlen
+    obtain ⟨_, _, _, hlt, _, _⟩ := rev_section d (incrPre outprev) out d' hok hs [] hlen
     exact hlt
 
 /-- **the invariant of a history**: inside every extension of the file, the `Prev` walk from the
@@ -95,9 +51,10 @@ theorem history_chain : ∀ (revs : List (SDoc × Bytes)) (out : Bytes), History
   induction h with
   | base d out d' hok hs hprev =>
     intro hlen R seen hseen
-    obtain ⟨table, hxt, hfacts, hlt, hp⟩ := rev_section d [] out d' hok hs R hlen
-    refine ⟨[(((bodyOf [] d).length : Int), table, d'.trailer)], ?_, ?_⟩
-    · refine ⟨rfl, ?_, by omega, ?_, ⟨d.maxId + 1, by simpa using hxt⟩, ?_⟩
+    obtain ⟨table, hxt, hfacts, hlt, hfree, _⟩ := rev_section d [] out d' hok hs R hlen
+    have hp := hfree PREV freeKey_PREV
+    refine ⟨[(((bodyOf [] d).length : Int), table, revTrailer d [] d')], ?_, ?_⟩
+    · refine ⟨rfl, ?_, by omega, ?_, ⟨revSize d, by simpa using hxt⟩, ?_⟩
       · intro hm; have := hseen _ hm; simp [topX] at this
       · simp only [Int.toNat_natCast, List.length_append]; omega
       · rw [hp, hprev]; simp [ChainOk]
@@ -105,7 +62,8 @@ theorem history_chain : ∀ (revs : List (SDoc × Bytes)) (out : Bytes), History
   | step d prevs outprev out d' hprevH hok hs hprev ih =>
     intro hlen R seen hseen
     have hs' : saveFrom (incrPre outprev) d = some (out, d') := hs
-    obtain ⟨table, hxt, hfacts, hlt, hp⟩ := rev_section d (incrPre outprev) out d' hok hs' R hlen
+    obtain ⟨table, hxt, hfacts, hlt, hfree, _⟩ := rev_section d (incrPre outprev) out d' hok hs' R hlen
+    have hp := hfree PREV freeKey_PREV
     obtain ⟨R0, hR0⟩ : ∃ R0, out = outprev ++ R0 := by
       obtain ⟨R0, h0⟩ := incr_prefix outprev d out d' hs
       exact ⟨R0, h0.symm⟩
@@ -129,28 +87,28 @@ theorem history_chain : ∀ (revs : List (SDoc × Bytes)) (out : Bytes), History
         simp only [topX] at this
         omega)
     have hbuf : out ++ R = outprev ++ (R0 ++ R) := by rw [hR0]; simp
-    refine ⟨(((bodyOf (incrPre outprev) d).length : Int), table, d'.trailer) :: cs, ?_, ?_⟩
-    · refine ⟨rfl, ?_, by omega, ?_, ⟨d.maxId + 1, by simpa using hxt⟩, ?_⟩
+    refine ⟨(((bodyOf (incrPre outprev) d).length : Int), table, revTrailer d (incrPre outprev) d') :: cs, ?_, ?_⟩
+    · refine ⟨rfl, ?_, by omega, ?_, ⟨revSize d, by simpa using hxt⟩, ?_⟩
       · intro hm; have := hseen _ hm; simp [topX] at this
       · simp only [Int.toNat_natCast, List.length_append]; omega
-      · rw [hp, hprev, hbuf]; exact hc1
+      · rw [hp, hprev, hbuf]; simpa [norm] using hc1
     · refine ⟨rfl, hfacts, ?_⟩
       rw [hbuf]; exact hc2
 
 /-! ### objects of a history, newest first -/
 
-def allObjs (revs : List (SDoc × Bytes)) : Objects := (revs.map (·.1.objects)).flatten
+def allObjs (revs : List (SDoc × Bytes)) : Objects := (revs.map fun r => revObjs r.1 r.2).flatten
 
 /-- a number re-used by another revision keeps its generation (what `IncrementalDocument` does
 when an object is modified) -/
 def GenConsistent (revs : List (SDoc × Bytes)) : Prop :=
-  ∀ r1 ∈ revs, ∀ r2 ∈ revs, ∀ p1 ∈ r1.1.objects, ∀ p2 ∈ r2.1.objects, p1.1.1 = p2.1.1 → p1.1.2 = p2.1.2
+  ∀ r1 ∈ revs, ∀ r2 ∈ revs, ∀ p1 ∈ revObjs r1.1 r1.2, ∀ p2 ∈ revObjs r2.1 r2.2, p1.1.1 = p2.1.1 → p1.1.2 = p2.1.2
 
 theorem allObjs_cons (d : SDoc) (pre : Bytes) (rs : List (SDoc × Bytes)) :
-    allObjs ((d, pre) :: rs) = d.objects ++ allObjs rs := by simp [allObjs]
+    allObjs ((d, pre) :: rs) = revObjs d pre ++ allObjs rs := by simp [allObjs]
 
 theorem allObjs_mem : ∀ (revs : List (SDoc × Bytes)) (id : ObjId) (o : Obj), (allObjs revs).get id = some o →
-    ∃ r ∈ revs, (id, o) ∈ r.1.objects := by
+    ∃ r ∈ revs, (id, o) ∈ revObjs r.1 r.2 := by
   intro revs
   induction revs with
   | nil => intro id o h; simp [allObjs, Objects.get] at h
@@ -158,7 +116,7 @@ theorem allObjs_mem : ∀ (revs : List (SDoc × Bytes)) (id : ObjId) (o : Obj), 
     intro id o h
     obtain ⟨d, pre⟩ := r
     rw [allObjs_cons, Objects_get_append] at h
-    cases hd : d.objects.get id with
+    cases hd : (revObjs d pre).get id with
     | some o' =>
       rw [hd] at h
       simp only [Option.orElse_some] at h
@@ -173,27 +131,25 @@ theorem allObjs_mem : ∀ (revs : List (SDoc × Bytes)) (id : ObjId) (o : Obj), 
 /-! ### one revision: table entries ↔ objects -/
 
 theorem rev_table_of_obj (buf : Bytes) (d : SDoc) (pre : Bytes) (X : XTable) (hf : RevFacts buf d pre X)
-    (hok : RevOK d) (id : ObjId) (o : Obj) (hd : d.objects.get id = some o) :
+    (id : ObjId) (o : Obj) (hd : (revObjs d pre).get id = some o) :
     ∃ off, X.get id.1 = some (.normal off id.2) := by
-  have hm := Objects_mem_of_get d.objects id o hd
-  obtain ⟨off, hx⟩ := writeObjects_complete d.objects (hdrOf pre d) [] hok.wf.nodup (id, o) hm (hok.wf.kept _ hm)
-  obtain ⟨hr1, hr2⟩ := hok.wf.range _ hm
-  simp only at hx hr1 hr2
+  obtain ⟨off, hx⟩ := hf.complete id o hd
+  obtain ⟨_, hlt, h1, _⟩ := hf.objsOK _ (Objects_mem_of_get _ id o hd)
+  simp only at hlt h1
   refine ⟨off, ?_⟩
   rw [hf.get id.1]
-  have : 1 ≤ id.1 ∧ id.1 < d.maxId + 1 := by omega
+  have : 1 ≤ id.1 ∧ id.1 < revSize d := by omega
   simp only [this, and_self, if_true, normalOf]
-  have hx' : (xmapOf pre d).get id.1 = some (off, id.2) := hx
-  rw [hx']; rfl
+  rw [hx]; rfl
 
 theorem rev_obj_of_table (buf : Bytes) (d : SDoc) (pre : Bytes) (X : XTable) (hf : RevFacts buf d pre X)
     (k : Nat) (v : XEntry) (hv : X.get k = some v) :
-    ∃ off g o, v = .normal off g ∧ off ≤ buf.length ∧ d.objects.get (k, g) = some o ∧ NotObjStm o ∧
+    ∃ off g o, v = .normal off g ∧ off ≤ buf.length ∧ (revObjs d pre).get (k, g) = some o ∧ NotObjStm o ∧
       ObjAt buf off k g o := by
   rw [hf.get k] at hv
   split at hv
   · simp only [normalOf] at hv
-    cases hx : (xmapOf pre d).get k with
+    cases hx : (revMap d pre).get k with
     | none => simp [hx] at hv
     | some p =>
       obtain ⟨a, b⟩ := p
@@ -208,7 +164,7 @@ theorem chain_entry (buf : Bytes) : ∀ (revs : List (SDoc × Bytes)) (chain : L
     ChainFacts buf revs chain → (∀ r ∈ revs, RevOK r.1) → ∀ (k : Nat) (v : XEntry),
     (chain.map (·.2.1)).findSome? (·.get k) = some v →
     ∃ off g o, v = .normal off g ∧ off ≤ buf.length ∧ (allObjs revs).get (k, g) = some o ∧ NotObjStm o ∧
-      ObjAt buf off k g o ∧ ∃ r ∈ revs, ((k, g), o) ∈ r.1.objects := by
+      ObjAt buf off k g o ∧ ObjOKN o ∧ k < 4294967295 ∧ g < 65536 := by
   intro revs
   induction revs with
   | nil =>
@@ -230,30 +186,35 @@ theorem chain_entry (buf : Bytes) : ∀ (revs : List (SDoc × Bytes)) (chain : L
         rw [hx] at hv
         injection hv with hv; subst hv
         obtain ⟨off, g, o, h1, h2, h3, h4, h5⟩ := rev_obj_of_table buf d pre X hf k v' hx
-        refine ⟨off, g, o, h1, h2, ?_, h4, h5, (d, pre), by simp, Objects_mem_of_get _ _ _ h3⟩
+        obtain ⟨o1, o2, _, o4⟩ := hf.objsOK _ (Objects_mem_of_get _ _ _ h3)
+        have := revSize_le d
+        have hmx : d.maxId + 2 ≤ 4294967295 := (hok (d, pre) (by simp)).hmax
+        simp only at o2 o4
+        refine ⟨off, g, o, h1, h2, ?_, h4, h5, o1, by omega, o4⟩
         rw [allObjs_cons, Objects_get_append, h3]; rfl
       | none =>
         rw [hx] at hv
-        obtain ⟨off, g, o, h1, h2, h3, h4, h5, r, hr, hm⟩ := ih cs hcs (fun r hr => hok r (by simp [hr])) k v hv
-        refine ⟨off, g, o, h1, h2, ?_, h4, h5, r, by simp [hr], hm⟩
-        have hno : d.objects.get (k, g) = none := by
-          cases hd : d.objects.get (k, g) with
+        obtain ⟨off, g, o, h1, h2, h3, h4, h5, h6, h7, h8⟩ :=
+          ih cs hcs (fun r hr => hok r (by simp [hr])) k v hv
+        refine ⟨off, g, o, h1, h2, ?_, h4, h5, h6, h7, h8⟩
+        have hno : (revObjs d pre).get (k, g) = none := by
+          cases hd : (revObjs d pre).get (k, g) with
           | none => rfl
           | some o2 =>
-            obtain ⟨off2, ht⟩ := rev_table_of_obj buf d pre X hf (hok (d, pre) (by simp)) (k, g) o2 hd
+            obtain ⟨off2, ht⟩ := rev_table_of_obj buf d pre X hf (k, g) o2 hd
             simp only at ht
             rw [hx] at ht; cases ht
         rw [allObjs_cons, Objects_get_append, hno]; exact h3
 
 theorem chain_complete (buf : Bytes) : ∀ (revs : List (SDoc × Bytes)) (chain : List (Int × XTable × Dict)),
-    ChainFacts buf revs chain → (∀ r ∈ revs, RevOK r.1) → GenConsistent revs → ∀ (id : ObjId) (o : Obj),
+    ChainFacts buf revs chain → GenConsistent revs → ∀ (id : ObjId) (o : Obj),
     (allObjs revs).get id = some o →
     ∃ off, (chain.map (·.2.1)).findSome? (·.get id.1) = some (.normal off id.2) := by
   intro revs
   induction revs with
-  | nil => intro chain _ _ _ id o h; simp [allObjs, Objects.get] at h
+  | nil => intro chain _ _ id o h; simp [allObjs, Objects.get] at h
   | cons r rs ih =>
-    intro chain hc hok hgen id o h
+    intro chain hc hgen id o h
     obtain ⟨d, pre⟩ := r
     cases chain with
     | nil => simp [ChainFacts] at hc
@@ -262,15 +223,15 @@ theorem chain_complete (buf : Bytes) : ∀ (revs : List (SDoc × Bytes)) (chain 
       obtain ⟨_, hf, hcs⟩ := hc
       simp only [List.map_cons, List.findSome?_cons]
       rw [allObjs_cons, Objects_get_append] at h
-      cases hd : d.objects.get id with
+      cases hd : (revObjs d pre).get id with
       | some o' =>
-        obtain ⟨off, ht⟩ := rev_table_of_obj buf d pre X hf (hok (d, pre) (by simp)) id o' hd
+        obtain ⟨off, ht⟩ := rev_table_of_obj buf d pre X hf id o' hd
         exact ⟨off, by rw [ht]⟩
       | none =>
         rw [hd] at h
         simp only [Option.orElse_none] at h
         have hgen' : GenConsistent rs := fun r1 h1 r2 h2 => hgen r1 (by simp [h1]) r2 (by simp [h2])
-        obtain ⟨off, hfs⟩ := ih cs hcs (fun r hr => hok r (by simp [hr])) hgen' id o h
+        obtain ⟨off, hfs⟩ := ih cs hcs hgen' id o h
         cases hx : X.get id.1 with
         | none => exact ⟨off, hfs⟩
         | some v2 =>
@@ -307,24 +268,26 @@ theorem history_header : ∀ (revs : List (SDoc × Bytes)) (out : Bytes), Histor
 theorem history_top (revs : List (SDoc × Bytes)) (out : Bytes) (h : History revs out)
     (hlen : out.length < 4294967296) :
     ∃ d pre prevs d' table cs, revs = (d, pre) :: prevs ∧ RevOK d ∧ saveFrom pre d = some (out, d') ∧
-      xrefAndTrailer (out.drop (bodyOf pre d).length) = .ok (table, d.maxId + 1, d'.trailer) ∧
-      RevFacts out d pre table ∧ ChainOk out (d'.trailer.get PREV) [] cs ∧ ChainFacts out prevs cs := by
+      xrefAndTrailer (out.drop (bodyOf pre d).length) = .ok (table, revSize d, revTrailer d pre d') ∧
+      RevFacts out d pre table ∧ ChainOk out ((revTrailer d pre d').get PREV) [] cs ∧ ChainFacts out prevs cs ∧
+      (∀ k, FreeKey k → (revTrailer d pre d').get k = (d.trailer.get k).map norm) ∧ (revTrailer d pre d').keys.Nodup := by
   cases h with
   | base d out d' hok hs hprev =>
-    obtain ⟨table, hxt, hfacts, _, hp⟩ := rev_section d [] out d' hok hs [] hlen
+    obtain ⟨table, hxt, hfacts, _, hfree, hnd⟩ := rev_section d [] out d' hok hs [] hlen
     simp only [List.append_nil] at hxt hfacts
-    refine ⟨d, [], [], d', table, [], rfl, hok, hs, hxt, hfacts, ?_, trivial⟩
-    rw [hp, hprev]; simp [ChainOk]
+    refine ⟨d, [], [], d', table, [], rfl, hok, hs, hxt, hfacts, ?_, trivial, hfree, hnd⟩
+    rw [hfree PREV freeKey_PREV, hprev]; simp [ChainOk]
   | step d prevs outprev out d' hprevH hok hs hprev =>
     have hs' : saveFrom (incrPre outprev) d = some (out, d') := hs
-    obtain ⟨table, hxt, hfacts, _, hp⟩ := rev_section d (incrPre outprev) out d' hok hs' [] hlen
+    obtain ⟨table, hxt, hfacts, _, hfree, hnd⟩ := rev_section d (incrPre outprev) out d' hok hs' [] hlen
     simp only [List.append_nil] at hxt hfacts
     obtain ⟨R0, hR0⟩ := incr_prefix outprev d out d' hs
     have hlenp : outprev.length < 4294967296 := by
       rw [← hR0] at hlen; simp only [List.length_append] at hlen; omega
     obtain ⟨cs, hc1, hc2⟩ := history_chain prevs outprev hprevH hlenp R0 [] (by intro s hs; simp at hs)
     rw [hR0] at hc1 hc2
-    exact ⟨d, incrPre outprev, prevs, d', table, cs, rfl, hok, hs', hxt, hfacts, by rw [hp, hprev]; exact hc1, hc2⟩
+    exact ⟨d, incrPre outprev, prevs, d', table, cs, rfl, hok, hs', hxt, hfacts,
+      by rw [hfree PREV freeKey_PREV, hprev]; simpa [norm] using hc1, hc2, hfree, hnd⟩
 
 theorem history_allOK : ∀ (revs : List (SDoc × Bytes)) (out : Bytes), History revs out → ∀ r ∈ revs, RevOK r.1 := by
   intro revs out h
@@ -337,50 +300,51 @@ theorem history_allOK : ∀ (revs : List (SDoc × Bytes)) (out : Bytes), History
     · exact hok
     · exact ih r hr
 
-/-- **`incr_again` (C07): histories of any length.** A well-formed real-free document saved
-plainly and then updated by ANY number of incremental saves (classic tables; each `Prev` = the
-previous cross-reference offset; a re-used object number keeps its generation; final file
-< 4 GiB; the oldest header's version text without line breaks in valid UTF-8): for every
-schedule, `Reader::read` on the final file succeeds and holds, for EVERY object id, the object of
-the NEWEST revision that has it — new objects override previous ones, untouched ones are still
+/-- **`incr_again` (C07): histories of any length, both cross-reference styles, real numbers
+included.** A well-formed document saved plainly and then updated by ANY number of incremental saves — each
+revision with a classic table or a cross-reference stream, in any mix; each `Prev` = the previous
+cross-reference offset; a re-used object number keeps its generation; final file < 4 GiB; the
+oldest header's version text without line breaks in valid UTF-8: for every schedule,
+`Reader::read` on the final file succeeds and holds, for EVERY object id, the object of the NEWEST
+revision that has it (`allObjs`: the documents' objects and, for stream-style revisions, their
+`/XRef` stream objects), in NORMAL FORM (`nfObj`: an integral real text is read as an integer — the
+identity on real-free objects) — new objects override previous ones, untouched ones are still
 there, nothing else appears; version and binary mark are those of the first header. -/
 theorem file_rt_history (order : Option (List Nat)) (revs : List (SDoc × Bytes)) (out : Bytes)
     (h : History revs out) (hlen : out.length < 4294967296) (hgen : GenConsistent revs)
     (hv : ∀ d0, oldestDoc revs = some d0 → (∀ b ∈ d0.version, notEol b = true) ∧ validUtf8 d0.version = true) :
     ∃ L : Loaded, loadDocOrd order out = .ok L ∧
-      (∀ id, L.objects.get id = (allObjs revs).get id) ∧
+      (∀ id, L.objects.get id = ((allObjs revs).get id).map nfObj) ∧
       (∀ d0, oldestDoc revs = some d0 → L.version = d0.version ∧ L.binaryMark = d0.binaryMark) := by
   obtain ⟨arr, harr, hord⟩ : ∃ arr : List Block → List Block, arr [] = [] ∧
       loadDocOrd order out = loadDocWith arr id out := ⟨_, loadDocOrd_arr_nil order, rfl⟩
-  obtain ⟨d, pre, prevs, d', table, cs, hrevs, hok, hs, hxt, hfacts, hchain, hcfacts⟩ := history_top revs out h hlen
+  obtain ⟨d, pre, prevs, d', table, cs, hrevs, hok, hs, hxt, hfacts, hchain, hcfacts, hfree, hndT⟩ :=
+    history_top revs out h hlen
   obtain ⟨d0, R1, hold, hhdr, hmark⟩ := history_header revs out h
   obtain ⟨hv1, hv2⟩ := hv d0 hold
   have hallok := history_allOK revs out h
-  obtain ⟨_, htr⟩ := saveFrom_table_eq pre d out d' hok.kind hs
   have hstart := startxref_found pre d out d' hs hlen
   have hble := body_le_out pre d out d' hs
   -- the trailer the reader keeps
-  have hnd : d.trailer.keys.Nodup := by
-    have := hok.tr.1
-    simp only [WFObj, WF] at this
-    exact this.1
-  have hnd' : d'.trailer.keys.Nodup := by rw [htr]; exact Dict_nodup_set _ _ _ hnd
-  have k2 : ¬ SIZE = XREFSTM := by decide
   have k3 : ¬ PREV = XREFSTM := by decide
-  have k4 : ¬ SIZE = ENCRYPT := by decide
   have k5 : ¬ PREV = ENCRYPT := by decide
-  have hstm' : (d'.trailer.remove PREV).get XREFSTM = none := by
-    rw [Dict_get_remove _ _ _ hnd', htr, Dict_get_set]
-    simp only [k3, k2, if_false]; exact hok.nostm
-  have henc' : (d'.trailer.remove PREV).has ENCRYPT = false := by
-    rw [Dict_has_eq, Dict_get_remove _ _ _ hnd', htr, Dict_get_set]
-    simp only [k5, k4, if_false]
-    rw [← Dict_has_eq]; exact hok.noenc
+  have hstm' : ((revTrailer d pre d').remove PREV).get XREFSTM = none := by
+    rw [Dict_get_remove _ _ _ hndT, hfree XREFSTM freeKey_XREFSTM]
+    simp only [k3, if_false]; rw [hok.nostm]; rfl
+  have henc' : ((revTrailer d pre d').remove PREV).has ENCRYPT = false := by
+    rw [Dict_has_eq, Dict_get_remove _ _ _ hndT, hfree ENCRYPT freeKey_ENCRYPT]
+    simp only [k5, if_false]
+    have : (d.trailer.get ENCRYPT).isSome = false := hok.noenc
+    cases hg : d.trailer.get ENCRYPT with
+    | none => rfl
+    | some v => rw [hg] at this; simp at this
   -- the Prev walk
-  obtain ⟨hpl, hlw⟩ := prevLoop_chain out (d'.trailer.remove PREV) hstm' cs (d'.trailer.get PREV) [] table hchain
-  have hcf : ChainFacts out revs ((((bodyOf pre d).length : Int), table, d'.trailer) :: cs) := by
+  obtain ⟨hpl, hlw⟩ := prevLoop_chain out ((revTrailer d pre d').remove PREV) hstm' cs
+    ((revTrailer d pre d').get PREV) [] table hchain
+  have hcf : ChainFacts out revs ((((bodyOf pre d).length : Int), table, revTrailer d pre d') :: cs) := by
     rw [hrevs]; exact ⟨rfl, hfacts, hcfacts⟩
-  have hmap : (((((bodyOf pre d).length : Int), table, d'.trailer) :: cs).map (·.2.1)) = table :: cs.map (·.2.1) := rfl
+  have hmap : (((((bodyOf pre d).length : Int), table, revTrailer d pre d') :: cs).map (·.2.1))
+      = table :: cs.map (·.2.1) := rfl
   have hmnodup : ((mergeChain (table :: cs.map (·.2.1))).map (·.1)).Nodup := by
     simp only [mergeChain]
     generalize cs.map (·.2.1) = tabs
@@ -394,37 +358,32 @@ theorem file_rt_history (order : Option (List Nat)) (revs : List (SDoc × Bytes)
     intro p hp
     have hg := XTable_get_of_mem _ hmnodup p.1 p.2 hp
     rw [hlw p.1, ← hmap] at hg
-    obtain ⟨off, g, o, _, _, _, _, _, r, hr, hm⟩ := chain_entry out revs _ hcf hallok p.1 p.2 hg
-    have := ((hallok r hr).wf.range _ hm).2
-    have := (hallok r hr).hmax
-    simp only at *
-    omega
+    obtain ⟨_, _, _, _, _, _, _, _, _, h7, _⟩ := chain_entry out revs _ hcf hallok p.1 p.2 hg
+    exact h7
   have hload := load_front_chain arr id out d0.version d0.binaryMark R1 hhdr hv1 hv2 hmark (bodyOf pre d).length hstart
-    hble table (d.maxId + 1) d'.trailer hxt (mergeChain (table :: cs.map (·.2.1))) (d'.trailer.remove PREV) hpl
+    hble table (revSize d) (revTrailer d pre d') hxt (mergeChain (table :: cs.map (·.2.1)))
+    ((revTrailer d pre d').remove PREV) hpl
     (by have := XTable_maxId_le _ 4294967294 (fun p hp => by have := hkeys p hp; omega); simp only [U32]; omega)
     henc'
   -- the object pass
   have hgood : ∀ e ∈ (mergeChain (table :: cs.map (·.2.1))).sorted,
       EntryGood out (mergeChain (table :: cs.map (·.2.1))) (mergeChain (table :: cs.map (·.2.1))).sorted.length
-        (allObjs revs) e := by
+        ((allObjs revs).map fun p => (p.1, nfObj p.2)) e := by
     intro e he
     obtain ⟨k, v⟩ := e
     rw [mem_sorted _ hmnodup] at he
     have hg := XTable_get_of_mem _ hmnodup k v he
     rw [hlw k, ← hmap] at hg
-    obtain ⟨off, g, o, h1, h2, h3, h4, ⟨rest, hrest⟩, r, hr, hm⟩ := chain_entry out revs _ hcf hallok k v hg
-    refine ⟨off, g, o, h1, h2, h3, h4, ?_⟩
+    obtain ⟨off, g, o, h1, h2, h3, h4, ⟨rest, hrest⟩, h6, h7, h8⟩ := chain_entry out revs _ hcf hallok k v hg
+    refine ⟨off, g, nfObj o, h1, h2, by rw [Objects_get_mapval, h3]; rfl, nfObj_notObjStm o h4, ?_⟩
     rw [← hrest]
-    obtain ⟨hr1, hr2⟩ := (hallok r hr).wf.range _ hm
-    exact indirectReadsBack_of_ok _ _ _ (by simp [U32_MAX]; have := (hallok r hr).hmax; simp only at hr2; omega)
-      (by have := (hallok r hr).wf.gens _ hm; simp [U16_MAX]; simp only at this; omega)
-      ((hallok r hr).objs _ hm) _ _ _
+    exact indirect_nf _ _ _ (by simp [U32_MAX]; omega) (by simp [U16_MAX]; omega) h6 _ _ _
   obtain ⟨L, hL, l1, l2, _, _, _, l6, _⟩ := objectPass_good arr id harr rfl out d0.version
-    d0.binaryMark (mergeChain (table :: cs.map (·.2.1))) (d'.trailer.remove PREV) (bodyOf pre d).length (allObjs revs)
-    hgood
+    d0.binaryMark (mergeChain (table :: cs.map (·.2.1))) ((revTrailer d pre d').remove PREV) (bodyOf pre d).length
+    ((allObjs revs).map fun p => (p.1, nfObj p.2)) hgood
   refine ⟨L, by rw [hord, hload]; exact hL, ?_, ?_⟩
   · intro id
-    rw [l6 id]
+    rw [l6 id, ← Objects_get_mapval]
     by_cases hany : (mergeChain (table :: cs.map (·.2.1))).sorted.any (entryIs id) = true
     · simp only [hany, if_true]
       rw [List.any_eq_true] at hany
@@ -438,12 +397,13 @@ theorem file_rt_history (order : Option (List Nat)) (revs : List (SDoc × Bytes)
       subst this
       rw [hog]; rfl
     · simp only [hany, Bool.false_eq_true, if_false]
+      rw [Objects_get_mapval]
       cases hd : (allObjs revs).get id with
       | none => rfl
       | some o =>
         exfalso
         apply hany
-        obtain ⟨off, hfs⟩ := chain_complete out revs _ hcf hallok hgen id o hd
+        obtain ⟨off, hfs⟩ := chain_complete out revs _ hcf hgen id o hd
         rw [hmap, ← hlw id.1] at hfs
         rw [List.any_eq_true]
         refine ⟨(id.1, .normal off id.2), ?_, by simp [entryIs]⟩
@@ -464,7 +424,7 @@ theorem prev_view_unchanged (order : Option (List Nat)) (d : SDoc) (pre : Bytes)
     (hgen : GenConsistent prevs)
     (hv : ∀ d0, oldestDoc prevs = some d0 → (∀ b ∈ d0.version, notEol b = true) ∧ validUtf8 d0.version = true) :
     ∃ outprev Lprev, outprev <+: out ∧ pre = incrPre outprev ∧ History prevs outprev ∧
-      loadDocOrd order outprev = .ok Lprev ∧ ∀ id, Lprev.objects.get id = (allObjs prevs).get id := by
+      loadDocOrd order outprev = .ok Lprev ∧ ∀ id, Lprev.objects.get id = ((allObjs prevs).get id).map nfObj := by
   cases h with
   | base d out d' _ _ _ => exact absurd rfl hne
   | step d prevs outprev out d' hprevH hok hs hprev =>
@@ -473,14 +433,65 @@ theorem prev_view_unchanged (order : Option (List Nat)) (d : SDoc) (pre : Bytes)
     obtain ⟨L, h1, h2, _⟩ := file_rt_history order prevs outprev hprevH hlenp hgen hv
     exact ⟨outprev, L, hpre, rfl, hprevH, h1, h2⟩
 
+theorem nodup_same_gen (objs : Objects) (hn : (objs.map (·.1.1)).Nodup) (p1 p2 : ObjId × Obj)
+    (h1 : p1 ∈ objs) (h2 : p2 ∈ objs) (he : p1.1.1 = p2.1.1) : p1.1.2 = p2.1.2 := by
+  induction objs with
+  | nil => simp at h1
+  | cons q rest ih =>
+    simp only [List.map_cons, List.nodup_cons] at hn
+    simp only [List.mem_cons] at h1 h2
+    rcases h1 with rfl | h1 <;> rcases h2 with rfl | h2
+    · rfl
+    · exact absurd (List.mem_map.mpr ⟨p2, h2, he.symm⟩) hn.1
+    · exact absurd (List.mem_map.mpr ⟨p1, h1, he⟩) hn.1
+    · exact ih hn.2 h1 h2
+
+/-- **`file_rt` for a plain save of EITHER style, real numbers included (C01)** — the one-revision
+instance of `file_rt_history`: what `load (save d)` holds under every id is the normal form of the
+document's object (and, for a cross-reference-stream save, of the `/XRef` stream object). -/
+theorem file_rt_save_norm (order : Option (List Nat)) (d : SDoc) (out : Bytes) (d' : SDoc) (hok : RevOK d)
+    (h : saveFrom [] d = some (out, d')) (hlen : out.length < 4294967296)
+    (hv1 : ∀ b ∈ d.version, notEol b = true) (hv2 : validUtf8 d.version = true)
+    (hprev : d.trailer.get PREV = none) :
+    ∃ L : Loaded, loadDocOrd order out = .ok L ∧ L.version = d.version ∧ L.binaryMark = d.binaryMark ∧
+      ∀ id, L.objects.get id = ((revObjs d []).get id).map nfObj := by
+  have hH : History [(d, [])] out := History.base d out d' hok h hprev
+  have hgen : GenConsistent [(d, [])] := by
+    intro r1 h1 r2 h2 p1 hp1 p2 hp2 he
+    simp only [List.mem_singleton] at h1 h2
+    subst h1; subst h2
+    simp only at hp1 hp2
+    have hnd : ((revObjs d []).map (·.1.1)).Nodup := by
+      unfold revObjs
+      cases d.xrefKind with
+      | table => exact hok.wf.nodup
+      | stream =>
+        simp only [List.map_append, List.map_cons, List.map_nil]
+        rw [List.nodup_append]
+        refine ⟨hok.wf.nodup, by simp, ?_⟩
+        intro a ha b hb
+        simp only [List.mem_singleton] at hb
+        subst hb
+        obtain ⟨p, hp, rfl⟩ := List.mem_map.mp ha
+        have := (hok.wf.range p hp).2
+        omega
+    exact nodup_same_gen _ hnd p1 p2 hp1 hp2 he
+  obtain ⟨L, hL, hobj, hver⟩ := file_rt_history order _ out hH hlen hgen
+    (by intro d0 h0; simp [oldestDoc] at h0; subst h0; exact ⟨hv1, hv2⟩)
+  obtain ⟨e1, e2⟩ := hver d (by simp [oldestDoc])
+  refine ⟨L, hL, e1, e2, ?_⟩
+  intro id
+  rw [hobj id]
+  simp [allObjs]
+
 /-! ### non-vacuity -/
 
 theorem exDoc_revOK : RevOK exDoc :=
-  ⟨rfl, by decide,
+  ⟨by decide,
     ⟨by simp [exDoc], by intro p hp; simp [exDoc] at hp, by intro p hp; simp [exDoc] at hp,
       by intro p hp; simp [exDoc] at hp⟩,
     by intro p hp; simp [exDoc] at hp,
-    ⟨by simp [exDoc, WFObj, WF, WFD], by simp [exDoc, height, heightD, MAX_NESTING], by simp [exDoc, NoRealD]⟩,
+    ⟨by simp [exDoc, WFObj, WF, WFD], by simp [exDoc, height, heightD, MAX_NESTING]⟩,
     by simp [exDoc, Dict.get], by simp [exDoc, Dict.has, Dict.get]⟩
 
 /-- a one-revision history meets every hypothesis of `file_rt_history` -/
@@ -488,7 +499,7 @@ example : ∃ out L, History [(exDoc, [])] out ∧ loadDocOrd none out = .ok L :
   obtain ⟨out, d', h, hlen⟩ := exDoc_saves
   have hH : History [(exDoc, [])] out := History.base exDoc out d' exDoc_revOK h (by simp [exDoc, Dict.get])
   obtain ⟨L, hL, _⟩ := file_rt_history none _ out hH hlen
-    (by intro r1 h1 r2 h2 p1 hp1; simp at h1; subst h1; simp [exDoc] at hp1)
+    (by intro r1 h1 r2 h2 p1 hp1; simp at h1; subst h1; simp [revObjs, exDoc] at hp1)
     (by intro d0 h0; simp [oldestDoc] at h0; subst h0
         exact ⟨by intro b hb; simp [exDoc] at hb; rcases hb with h | h | h <;> subst h <;> decide, by decide⟩)
   exact ⟨out, L, hH, hL⟩
@@ -501,12 +512,37 @@ example : ∃ out1 out2 d2, History [(d2, incrPre out1), (exDoc, [])] out2 := by
   have hb1 := body_le_out [] exDoc out1 d1' h1
   let d2 : SDoc := SDoc.mk [49, 46, 53] [187, 173, 192, 222] [(PREV, .int ((bodyOf [] exDoc).length : Int))] [] 0 .table
   have hok2 : RevOK d2 :=
-    ⟨rfl, by decide,
+    ⟨by decide,
       ⟨by simp [d2], by intro p hp; simp [d2] at hp, by intro p hp; simp [d2] at hp, by intro p hp; simp [d2] at hp⟩,
       by intro p hp; simp [d2] at hp,
-      ⟨by simp [d2, WFObj, WF, WFD, I64_MAX]; omega, by simp [d2, height, heightD, MAX_NESTING], by simp [d2, NoRealD, NoReal]⟩,
+      ⟨by simp [d2, WFObj, WF, WFD, I64_MAX]; omega, by simp [d2, height, heightD, MAX_NESTING]⟩,
       by simp [d2, Dict.get, PREV, XREFSTM], by simp [d2, Dict.has, Dict.get, PREV, ENCRYPT]⟩
   obtain ⟨out2, d2', h2⟩ := saveFrom_some (incrPre out1) d2 (by decide)
   exact ⟨out1, out2, d2, History.step d2 _ out1 out2 d2' hH1 hok2 h2 (by simp [d2, Dict.get, topX])⟩
+
+/-- a cross-reference-STREAM revision as base and a classic-table revision appended to it: mixed
+histories exist -/
+example : ∃ out1 out2 d1 d2, d1.xrefKind = .stream ∧ d2.xrefKind = .table ∧
+    History [(d2, incrPre out1), (d1, [])] out2 := by
+  let d1 : SDoc := SDoc.mk [49, 46, 53] [187, 173, 192, 222] [] [] 0 .stream
+  have hok1 : RevOK d1 :=
+    ⟨by decide,
+      ⟨by simp [d1], by intro p hp; simp [d1] at hp, by intro p hp; simp [d1] at hp, by intro p hp; simp [d1] at hp⟩,
+      by intro p hp; simp [d1] at hp,
+      ⟨by simp [d1, WFObj, WF, WFD], by simp [d1, height, heightD, MAX_NESTING]⟩,
+      by simp [d1, Dict.get], by simp [d1, Dict.has, Dict.get]⟩
+  obtain ⟨out1, d1', h1⟩ := saveFrom_some [] d1 (by decide)
+  have hH1 : History [(d1, [])] out1 := History.base d1 out1 d1' hok1 h1 (by simp [d1, Dict.get])
+  have hlt' : (bodyOf [] d1).length = 15 := by simp [bodyOf, hdrOf, d1, writeObjects, PDF_KW]
+  exact (by
+    let d2 : SDoc := SDoc.mk [49, 46, 53] [187, 173, 192, 222] [(PREV, .int ((bodyOf [] d1).length : Int))] [] 0 .table
+    have hok2 : RevOK d2 :=
+      ⟨by decide,
+        ⟨by simp [d2], by intro p hp; simp [d2] at hp, by intro p hp; simp [d2] at hp, by intro p hp; simp [d2] at hp⟩,
+        by intro p hp; simp [d2] at hp,
+        ⟨by simp [d2, WFObj, WF, WFD, I64_MAX]; omega, by simp [d2, height, heightD, MAX_NESTING]⟩,
+        by simp [d2, Dict.get, PREV, XREFSTM], by simp [d2, Dict.has, Dict.get, PREV, ENCRYPT]⟩
+    obtain ⟨out2, d2', h2⟩ := saveFrom_some (incrPre out1) d2 (by decide)
+    exact ⟨out1, out2, d1, d2, rfl, rfl, History.step d2 _ out1 out2 d2' hH1 hok2 h2 (by simp [d2, Dict.get, topX])⟩)
 
 end Lopdf.FileRT
